@@ -363,3 +363,8 @@ def _find(spec, path, mat):
     while s["k"] in ("optional", "ref"):
         s = mat.resolve(s) if s["k"] == "ref" else U.strip(s["a"][0])
     return s
+
+
+def cg_plan(seed):
+    """coverage-guided shards of the thorough tier (harness/cg.py): same strategies and check functions, choices from libFuzzer"""
+    return [{"seed": seed * 1000 + 900 + k, "n": 0, "depth": 4, "cg": {"runs": 4000}} for k in range(4)]
